@@ -81,6 +81,9 @@ func goFailOf(r Result) string {
 	if r.LexFail != "" {
 		return r.LexFail
 	}
+	if r.Unstable != "" {
+		return "loading the same bytes again gives another result: " + r.Unstable
+	}
 	return ""
 }
 
